@@ -129,7 +129,7 @@ func ruleExactLength(r *Report) {
 				bypass := false
 				for _, nr := range nilReturns(fn) {
 					if precedes(rd, nr) || reachableFromSite(rd, nr) {
-						if siteReachable(nr, removed) && b.Dominates(nr.Block) {
+						if siteReachable(nr, removed) && dominates(b, nr.Block) {
 							bypass = true
 						}
 					}
@@ -392,23 +392,17 @@ func ruleScanStep(r *Report) {
 		if len(b.Instrs) == 0 {
 			continue
 		}
-		iff, ok := b.Instrs[len(b.Instrs)-1].(*ssa.If)
-		if !ok {
-			continue
-		}
-		bo, ok := iff.Cond.(*ssa.BinOp)
-		if !ok || bo.Op != token.LSS {
-			continue
-		}
-		sub, ok := bo.X.(*ssa.BinOp)
-		if !ok || sub.Op != token.SUB {
-			continue
-		}
-		if c, ok := bo.Y.(*ssa.Call); ok {
-			if bi, ok := c.Call.Value.(*ssa.Builtin); ok && bi.Name() == "len" && globalLoad(c.Call.Args[0]) == "recordio.MagicNumberSeparatorLongBytes" {
-				if ph, ok := sub.Y.(*ssa.Phi); ok {
-					iPhi = ph
-					fullMatch = b.Succs[1]
+		for _, v := range ifCmpForms(b) {
+			sub, isS := v.X.(*ssa.BinOp)
+			if v.Op != token.LSS || !isS || sub.Op != token.SUB {
+				continue
+			}
+			if c, ok := v.Y.(*ssa.Call); ok {
+				if bi, ok := c.Call.Value.(*ssa.Builtin); ok && bi.Name() == "len" && globalLoad(c.Call.Args[0]) == "recordio.MagicNumberSeparatorLongBytes" {
+					if ph, ok := sub.Y.(*ssa.Phi); ok {
+						iPhi = ph
+						fullMatch = v.F
+					}
 				}
 			}
 		}
@@ -429,7 +423,7 @@ func ruleScanStep(r *Report) {
 			}
 		}
 		// any other step must come from the full-match region (after a failed trial read)
-		if fullMatch != nil && (pred == fullMatch || fullMatch.Dominates(pred)) {
+		if fullMatch != nil && (pred == fullMatch || dominates(fullMatch, pred)) {
 			continue
 		}
 		bad = fmt.Sprintf("edge from block %d assigns %s", pred.Index, e.Name())
